@@ -210,8 +210,8 @@ class Check:
                 bad = [a for a in axioms_in(pa[t]) if a not in allowed]
                 ok_all &= self.ob(f"theorem {t}", not bad,
                                   pa[t] if not bad else "depends on axioms outside the allowed list: " + ", ".join(bad))
-        hits = build.forbidden_tokens()
-        ok_all &= self.ob("no Admitted/admit/Axiom/Parameter/Conjecture/guard switches in coq/", not hits, "; ".join(hits[:10]))
+        hits = build.forbidden_tokens([mod.THEOREM_FILE, mod.CHK_MODULE.replace('.', '/') + '.v'])
+        ok_all &= self.ob("no Admitted/admit/Axiom/Parameter/Conjecture/guard switches in the .v files this property depends on", not hits, "; ".join(hits[:10]))
         extra = getattr(mod, "extra_obligations", None)
         if extra:
             for name, ok, detail in extra(self.tier):
